@@ -18,7 +18,8 @@
 (***************************************************************************)
 EXTENDS Integers, Sequences, FiniteSets, TLC
 
-CONSTANTS Callers, Behaviour, Delay, Grace, CloseBlock, FrozenCloseOk, SerialiseKill, MaxT
+CONSTANTS Callers, Behaviour, Delay, Grace, CloseBlock, FrozenCloseOk, SerialiseKill, MaxT,
+          Lag   \* how late the host may learn that the process has exited (0 for a child it waits on; a reattached client polls the pid once a second)
 
 VARIABLES now, proc, quitAt, exitDue, reaped, exitedFlag, runnerSet, clientClosed, lock,
           cpc, cstart, cend, cdl, forcedGraceful, marker
@@ -103,7 +104,7 @@ Force(c) == /\ cpc[c] = "force"
             /\ IF proc # "dead"
                THEN /\ proc' = "dead"
                     \* was it about to exit on its own inside the grace period?
-                    /\ forcedGraceful' = (forcedGraceful \/ (exitDue >= 0 /\ exitDue - quitAt < Grace))
+                    /\ forcedGraceful' = (forcedGraceful \/ (exitDue >= 0 /\ exitDue - quitAt + Lag < Grace))
                ELSE UNCHANGED <<proc, forcedGraceful>>
             /\ cpc' = [cpc EXCEPT ![c] = "tail"]
             /\ UNCHANGED <<now, quitAt, exitDue, reaped, exitedFlag, runnerSet, clientClosed, lock, cstart, cend, cdl, marker>>
